@@ -283,7 +283,7 @@ theorem C06_tf_factor_anti_norm (k1 b avg tf f₁ f₂ : ℚ) (hk : 0 < k1) (hb0
 
 theorem fieldnorm_255 : Gen.FIELD_NORMS_TABLE.getD Gen.MAX_SCORE_FIELDNORM_ID 0 = 2013265944 := by
   decide
-theorem fieldnorm_40 : Gen.FIELD_NORMS_TABLE.getD 40 0 = 40 ∧ Gen.FIELD_NORMS_TABLE.getD 41 0 = 42 := by
+theorem fieldnorm_40 : Gen.FIELD_NORMS_TABLE.getD 40 0 = 40 := by
   decide
 
 open TantivyModel.Bm25Q in
@@ -294,7 +294,7 @@ length 1, a document of 41 tokens all equal to the term (tf = 41; its length is 
 theorem C06_UB_max_counterexample :
     maxScoreFactor 1 < tfFactor 41 (normOf K1 B ((Gen.FIELD_NORMS_TABLE.getD 40 0 : Nat) : ℚ) 1) := by
   unfold maxScoreFactor
-  rw [fieldnorm_255, fieldnorm_40.1]
+  rw [fieldnorm_255, fieldnorm_40]
   unfold tfFactor normOf K1 B
   norm_num [Gen.K1_NUM, Gen.K1_DEN, Gen.B_NUM, Gen.B_DEN, Gen.MAX_SCORE_TF]
 
